@@ -1029,6 +1029,33 @@ class Explorer:
                     cls &= set(cur[1])
                 self._set_fp(d.ops[0], ("fp", frozenset(cls)), e)
 
+    def interpretable(self, o, env, depth=0):
+        """is the i1 value a tree of and/or/xor/select over compares the refinement understands exactly?"""
+        if o[0] == "c":
+            return True
+        if o[0] != "i" or depth > 20:
+            return False
+        i = self.f.insts[o[1]]
+        if ("i", i.id) in env and singleton(env[("i", i.id)]) is not None:
+            return True
+        if i.type != "i1":
+            return False
+        if i.op in ("and", "or", "xor"):
+            return all(self.interpretable(x, env, depth + 1) for x in i.ops)
+        if i.op == "select":
+            return all(self.interpretable(x, env, depth + 1) for x in i.ops)
+        if i.op == "icmp":
+            a, b = self.eval(i.ops[0], env), self.eval(i.ops[1], env)
+            if self._pair(i) is not None:
+                return True
+            return singleton(a) is not None or singleton(b) is not None or (a is not None and a[0] == "ptr") or (b is not None and b[0] == "ptr")
+        if i.op == "fcmp":
+            b = self.eval(i.ops[1], env)
+            return b is not None and b[0] == "fp" and len(b[1]) == 1
+        if i.op == "phi":
+            return False
+        return False
+
     # ---------------- exploration
     def depends_on_assumption(self, o):
         roots = set(self.assume) | {("i", k) for k in self.assume_def}
@@ -1153,6 +1180,11 @@ class Explorer:
                 work.append((t.ops[0][1], b.idx, s))
                 return
             tb, fb = t.ops[2][1], t.ops[1][1]
+            cur = self.eval(t.ops[0], s.env)
+            if singleton(cur) is None and not self.interpretable(t.ops[0], s.env):
+                # the outcome depends on something the engine cannot interpret: facts derived below this point are over-approximations
+                s = State(dict(s.env), True, s.trail)
+                s.env[("flag", "approx")] = True
             for truth, dest in ((True, tb), (False, fb)):
                 envs = self.refine(t.ops[0], truth, s.env)
                 if envs and self.eval(t.ops[0], s.env) is not None and singleton(self.eval(t.ops[0], s.env)) is None \
